@@ -111,6 +111,27 @@ EXTRA3={
 }
 for k,v in EXTRA3.items():
     t,n,tech=T[k]; T[k]=(t+v,n,tech)
+EXTRA4={
+"C01":" Plus rows of 2^k-1, 2^k, 2^k+1 cells up to 2^17 filled in six uniform ways, dumped and the dump fed back; every scalar also at the end of rows read through text(), TextUnwrapper and TextCollector.",
+"C02":" Plus text of every length and REP of every count (also in insert mode, auto-wrap off, other charset) from every placement on 66x5.",
+"C03":" Plus string payloads of 2^20 .. 5 000 000 (thorough 2^24+1) characters and 6000 (20 000) strings in a row for every introducer, and a fresh-parser comparison after each of ~90 sequences other terminals implement.",
+"C04":" The realistic-screen sweeps also run from a sparse screen and REPeat with every count after IRM / DECAWM / charset switches; the fills have soft-wrapped rows and lowercase text.",
+"C05":" DECOM homing is exact inside mode lists (also behind a screen switch after a resize).",
+"C06":" Rows vacated by a scroll must be unmarked; the wide sweep also runs on 20x40; the dense fill has soft-wrapped row pairs.",
+"C07":" The sparse fill has text behind gaps of untouched blanks and a blank soft-wrapped row.",
+"C08":" Plus every value 0..65535 in front of ';5;1' and ';2;9;3;7;31', and the push / pop / save / restore sequences of other terminals as ops of the pen fold.",
+"C10":" Plus resizes as ordinary operations in the middle of histories (18 ops, 4x4, depth 6, thorough 7), every resize transition judged; a second shape of long history (short lines, then padded columns).",
+"C12":" Plus every token string inside ONE long call (behind / in front of 1100, for short strings 4200 and 17000, inert characters) against two calls.",
+"C13":" Plus limits in the millions (4, thorough 9): a burst to the hard limit, line by line beyond, a shrink, a reset and again.",
+"C14":" ED 0/1/3, DECALN and DECSTR are in the alphabet (functions that act on the screen must not reach what has scrolled off).",
+"C16":" Plus near misses that only look like the switching modes once the parser runs out of room (a 7th sub-parameter, a 33rd parameter).",
+"C17":" Plus the same mode twice in one list, ?47h in the core alphabet, and sequences of other terminals between save and restore.",
+"C18":" Plus k tabs in ONE call for k around every power of two up to 2^17 (thorough 2^20).",
+"C19":" Plus ESC c in the middle of one long call after an unterminated sequence.",
+"C20":" Plus ~90 sequences other terminals implement as inert inputs, every ordered pair of them around each of ten implemented commands, and every unimplemented CSI shape (5314) with every first parameter 0..127 (thorough 0..1100), each with the continuation.",
+}
+for k,v in EXTRA4.items():
+    t,n,tech=T[k]; T[k]=(t+v,n,tech)
 claimed=sorted(T)
 checks=[]
 for p in props:
